@@ -33,7 +33,7 @@ OBLIGATIONS = [
      "bounds": "all h, all point octets (abstract injective point codec), 0..2 trailing bytes", "stubs": ["point octet codec: abstract", "sm9_do_verify: arbitrary verdict, records its argument"]},
 ] + [
     {"id": "C17.ciphertext_der.c%d" % cl, "harness": "harness/C17/ctder.c", "entry": "h_ct_der", "units": ["sm9_enc.c", "asn1.c"], "defs": ["-DCL=%d" % cl],
-     "remove": {"sm9_enc.c": ["sm9_do_decrypt", "sm9_do_encrypt", "sm9_kem_encrypt", "sm9_kem_decrypt", "sm9_ciphertext_print"]}, "unwind": 70, "timeout": 600, "tier": "quick" if cl in (0, 3) else "thorough",
+     "remove": {"sm9_enc.c": ["sm9_do_decrypt", "sm9_do_encrypt", "sm9_kem_encrypt", "sm9_kem_decrypt", "sm9_ciphertext_print"]}, "unwind": max(70, cl + 5), "timeout": 900, "tier": "quick" if cl in (0, 3) else "thorough",
      "title": "SM9 ciphertext DER: from_der(to_der(C)) = C, dry run = written, exactly the encoding consumed; sm9_decrypt refuses trailing bytes and hands exactly the decoded parts to sm9_do_decrypt",
      "bounds": "C2 of %d bytes (all contents), all C3 and C1 octets (abstract injective point codec), 0..1 trailing bytes" % cl, "stubs": ["point octet codec: abstract", "sm9_do_decrypt: arbitrary verdict, records its arguments"]}
     for cl in (0, 3, 130, 255)
